@@ -135,11 +135,14 @@ def nonbinary(ctx):
     ctx.sample(sub, {"alphabet": [0, 1, 2], "max_len": 7})
 
 
+TIME_START = "2000-01-01"
+
+
 def _mkda(w, order=None, chunks=None):
     import pandas as pd
     import xarray as xr
     N, n = w.shape
-    time = pd.date_range("2000-01-01", periods=n, freq="10D")
+    time = pd.date_range(TIME_START, periods=n, freq="10D")
     da = xr.DataArray(w.reshape(N, 1, n).astype("uint8"), dims=("y", "x", "time"), coords={"time": time})
     if order is not None:
         da = da.isel(time=list(order))
@@ -225,6 +228,19 @@ def croo_all(ctx):
             k = check_croo(w, order, ctx, sub)
             ctx.count(sub, evaluations=k, states=k, transitions=k, traces_validated_against_impl=k)
         ctx.count(sub, nontrivial=int((cr >= 1).sum()) * len(orders))
+    # time axes before 1970, across 1970-01-01 and far in the past (nothing may depend on the epoch)
+    global TIME_START
+    for start in ("1969-11-20", "1951-03-01", "1800-01-05", "1969-12-22"):
+        TIME_START = start
+        try:
+            for n in (3, 6):
+                w = sse.word_indices(2, n).astype("uint8")
+                cr, _ = ref_runs(w)
+                for order in itertools.permutations(range(n)) if n == 3 else [tuple(range(n)), tuple(range(n - 1, -1, -1)), (3, 1, 5, 0, 4, 2), (5, 0, 1, 2, 3, 4)]:
+                    k = check_croo(w, order, ctx, sub)
+                    ctx.count(sub, evaluations=k, states=k, transitions=k, traces_validated_against_impl=k, nontrivial=int((cr >= 1).sum()))
+        finally:
+            TIME_START = "2000-01-01"
     # dask-backed
     w = sse.word_indices(2, 7).astype("uint8")
     for order in (tuple(range(7)), (3, 1, 6, 0, 5, 2, 4)):
